@@ -12,6 +12,10 @@ PROGS = [
     {"nodes": [L("a"), {"k": "wfc", "polls": 2}, L("b"), {"k": "invoke"}, L("c")]},
     {"nodes": [L("a"), {"k": "wfcb"}, L("b"), {"k": "wait"}, L("c")]},
     {"nodes": [L("a"), {"k": "step", "loginside": True, "fail": 1, "max": 2}, L("b"), {"k": "step", "sem": "AMO"}, L("c")]},
+    # a callback that is still outstanding when the invocation resumes (a visited operation that is NOT complete), followed in
+    # program order by completed operations
+    {"nodes": [L("a"), {"k": "cb", "between": [L("m"), {"k": "step"}, L("n"), {"k": "wait"}, L("o"), {"k": "step"}, L("p")]}, L("b")]},
+    {"nodes": [L("a"), {"k": "invoke", "caught": True}, L("b"), {"k": "cb", "between": [L("m"), {"k": "wait"}, L("n")]}, L("c")]},
 ]
 
 
